@@ -9,20 +9,29 @@
 //   - a native function note() receiving every close/getline/system result.
 //
 // Only these observables are compared with the prediction.
+//
+// A SESSION (fam "session") is a sequence of such runs on ONE interp.Interpreter
+// (interp.New once, Execute per run), each Execute with the Config of its own
+// run: own flags, own OpenFile wrapper (or none), own output writers; the work
+// directory is shared, as the model's file system is.  The one program
+// branches on the variable RUN set through Config.Vars.
 package c12
 
 import (
 	"bufio"
 	"bytes"
+	"context"
 	"errors"
 	"fmt"
 	"io"
 	"os"
 	"path/filepath"
+	"runtime"
 	"sort"
 	"strings"
 	"sync"
 	"sync/atomic"
+	"time"
 
 	"github.com/benhoyt/goawk/interp"
 	"github.com/benhoyt/goawk/parser"
@@ -30,14 +39,15 @@ import (
 )
 
 type Cfg struct {
-	NE       bool     `json:"ne"`
-	NW       bool     `json:"nw"`
-	NR       bool     `json:"nr"`
-	Custom   bool     `json:"custom"`
-	FailAt   int      `json:"failAt"`
-	Buffered bool     `json:"buffered"`
-	Stdin    []hx.BS  `json:"stdin"`
-	Pre      []string `json:"pre"`
+	NE     bool     `json:"ne"`
+	NW     bool     `json:"nw"`
+	NR     bool     `json:"nr"`
+	Custom bool     `json:"custom"`
+	FailAt int      `json:"failAt"`
+	WKind  string   `json:"wkind"` // "plain" | "bufio3" | "bufio16" | "bufio4096": Config.Output
+	OMode  string   `json:"omode"` // "default" | "csv" | "tsv": Config.OutputMode
+	Stdin  []hx.BS  `json:"stdin"`
+	Pre    []string `json:"pre"`
 }
 
 type Act struct {
@@ -70,6 +80,7 @@ type Kid struct {
 	Out hx.BS `json:"out"`
 	Lo  int   `json:"lo"`
 	Hi  int   `json:"hi"`
+	Sys bool  `json:"sys"` // a system() child (lo = hi) rather than a command written to
 }
 
 type Pred struct {
@@ -94,22 +105,42 @@ type Case struct {
 	Cfg  Cfg    `json:"cfg"`
 	Acts []Act  `json:"acts"`
 	Pred Pred   `json:"pred"`
+	// SigClass, when set, replaces the flag class in failure signatures (runs of a session)
+	SigClass string `json:"-"`
+}
+
+// RunIn is one Execute of a session: its configuration and its history.
+type RunIn struct {
+	Cfg  Cfg   `json:"cfg"`
+	Acts []Act `json:"acts"`
+	Pred Pred  `json:"pred"`
+}
+
+// SessionCase is a sequence of runs on one Interpreter.
+type SessionCase struct {
+	Fam  string  `json:"fam"`
+	Runs []RunIn `json:"runs"`
 }
 
 var FileNames = []string{"f1", "f2", "f3"}
 
 const cat3Text = "sh -c 'cat; exit 3'"
 
-func cmdText(c string) string {
-	if c == "cat3" {
-		return cat3Text
-	}
-	return c
-}
+// exit3: a command that closes its standard input at once, says so in the
+// control directory (so that the harness can wait for it: what the program
+// writes afterwards certainly meets a closed pipe), and exits with status 3.
+const exit3Head = `sh -c 'exec 0<&-; echo x >> "$0/gone"; exit `
+const exit3Tail = `' `
+
+func exit3Text(ctl string) string { return exit3Head + "3" + exit3Tail + ctl }
+
+// showf1: a command that copies file f1 (as it is on disk at that moment) to
+// its standard output.
+func showf1Text(dir string) string { return "cat '" + dir + "/f1' 2>/dev/null" }
 
 // nameExpr renders a name as an AWK expression; D is the AWK variable holding
-// the work directory.
-func nameExpr(n, cls, dir string) string {
+// the work directory, C the one holding the control directory.
+func nameExpr(n, cls, dir, ctl string) string {
 	comp := cls == "computed"
 	switch n {
 	case "f1", "f2", "f3":
@@ -137,24 +168,37 @@ func nameExpr(n, cls, dir string) string {
 			return `("sh -c 'cat; exit " 3 "'")`
 		}
 		return hx.AwkString([]byte(cat3Text))
+	case "exit3":
+		if comp {
+			return "(" + hx.AwkString([]byte(exit3Head)) + " 3 " + hx.AwkString([]byte(exit3Tail)) + " C)"
+		}
+		return hx.AwkString([]byte(exit3Text(ctl)))
+	case "showf1":
+		if comp {
+			return `("cat '" D "/f1' 2>/dev/null")`
+		}
+		return hx.AwkString([]byte(showf1Text(dir)))
 	}
 	return hx.AwkString([]byte(n))
 }
 
-// Render builds the program for a history; marks adds mark(i) after action i.
-func Render(acts []Act, dir string, marks bool) (prog string, args []string, ok bool) {
-	var sb strings.Builder
-	sb.WriteString("BEGIN {\n")
-	mainRule := false
+// renderBody renders the statements of one history (the body of BEGIN);
+// marks adds mark(i) after action i.  operand reports the file operand, if any.
+func renderBody(sb *strings.Builder, acts []Act, dir, ctl string, marks bool, indent string) (args []string, mainRule, ok bool) {
+	gone := 0 // processes of exit3 started so far in this run
+	exit3Open := false
 	for i, a := range acts {
 		pay := string(rune(96 + i + 1))
-		nm := nameExpr(a.Name, a.Cls, dir)
+		nm := nameExpr(a.Name, a.Cls, dir, ctl)
 		var s string
 		switch a.Op {
 		case "print":
 			stmt := `print "` + pay + `"`
-			if a.Form == "printf" {
+			switch a.Form {
+			case "printf":
 				stmt = `printf "%s", "` + pay + `"`
+			case "print2":
+				stmt = `print "` + pay + `", "` + pay + `"`
 			}
 			switch a.Dest {
 			case "stdout":
@@ -167,11 +211,22 @@ func Render(acts []Act, dir string, marks bool) (prog string, args []string, ok 
 				}
 			case "cmd":
 				s = stmt + " | " + nm
+				if a.Name == "exit3" {
+					// wait until the command has closed its standard input
+					if !exit3Open {
+						exit3Open = true
+						gone++
+					}
+					s += fmt.Sprintf("; waitgone(%d)", gone)
+				}
 			default:
-				return "", nil, false
+				return nil, false, false
 			}
 		case "close":
 			s = `note("close", close(` + nm + `), "")`
+			if a.Name == "exit3" {
+				exit3Open = false
+			}
 		case "fflush":
 			if a.Name == "" {
 				s = `note("fflush", fflush(), "")`
@@ -199,16 +254,57 @@ func Render(acts []Act, dir string, marks bool) (prog string, args []string, ok 
 		case "finish":
 			continue
 		default:
-			return "", nil, false
+			return nil, false, false
 		}
-		sb.WriteString("  " + s + "\n")
+		sb.WriteString(indent + s + "\n")
 		if marks {
-			fmt.Fprintf(&sb, "  mark(%d)\n", i+1)
+			fmt.Fprintf(sb, "%smark(%d)\n", indent, i+1)
 		}
+	}
+	return args, mainRule, true
+}
+
+// Render builds the program for a history; marks adds mark(i) after action i.
+func Render(acts []Act, dir, ctl string, marks bool) (prog string, args []string, ok bool) {
+	var sb strings.Builder
+	sb.WriteString("BEGIN {\n")
+	args, mainRule, ok := renderBody(&sb, acts, dir, ctl, marks, "  ")
+	if !ok {
+		return "", nil, false
 	}
 	sb.WriteString("}\n")
 	if mainRule {
 		sb.WriteString("{ note(\"rec\", 0, $0) }\n")
+	}
+	return sb.String(), args, true
+}
+
+// RenderSession builds ONE program for all runs of a session: the run to
+// execute is chosen by the variable RUN (set through Config.Vars).
+func RenderSession(runs []RunIn, dir, ctl string, marks bool) (prog string, args [][]string, ok bool) {
+	if len(runs) == 1 {
+		p, a, ok := Render(runs[0].Acts, dir, ctl, marks)
+		return p, [][]string{a}, ok
+	}
+	var sb strings.Builder
+	var recRuns []string
+	sb.WriteString("BEGIN {\n")
+	for k, r := range runs {
+		fmt.Fprintf(&sb, "  if (RUN == %d) {\n", k+1)
+		a, mainRule, ok := renderBody(&sb, r.Acts, dir, ctl, marks, "    ")
+		if !ok {
+			return "", nil, false
+		}
+		sb.WriteString("  }\n")
+		args = append(args, a)
+		if mainRule {
+			recRuns = append(recRuns, fmt.Sprintf("RUN == %d", k+1))
+		}
+	}
+	sb.WriteString("}\n")
+	if len(recRuns) > 0 {
+		// a run without an operand reads its (private) standard input to the end here and sees nothing of it
+		sb.WriteString(strings.Join(recRuns, " || ") + " { note(\"rec\", 0, $0) }\n")
 	}
 	return sb.String(), args, true
 }
@@ -236,11 +332,16 @@ func (l *LockedBuf) Bytes() []byte {
 
 var errInjected = errors.New("injected write failure")
 
-// FailWriter accepts k bytes in total, then fails for ever.
+// FailWriter accepts k bytes in total, then fails for ever.  It remembers how
+// many actions of the program had been completed (mark() calls) when the
+// first write failed: the action in progress at that moment is the one whose
+// write met the failure.
 type FailWriter struct {
-	mu   sync.Mutex
-	left int
-	got  []byte
+	mu       sync.Mutex
+	left     int
+	got      []byte
+	marks    *int64
+	FailMark int // -1: no write has failed
 }
 
 func (f *FailWriter) Write(p []byte) (int, error) {
@@ -254,24 +355,31 @@ func (f *FailWriter) Write(p []byte) (int, error) {
 	n := f.left
 	f.got = append(f.got, p[:n]...)
 	f.left = 0
+	if f.FailMark < 0 && f.marks != nil {
+		f.FailMark = int(atomic.LoadInt64(f.marks))
+	}
 	return n, errInjected
 }
 
 // ---- one run ----
 
 type Obs struct {
-	Stdout  []byte
-	Stderr  []byte
-	Err     error
-	Panic   any
-	Stack   string
-	Timeout bool
-	Opens   []Open
-	Starts  []string
-	Files   map[string]FileSt
-	Extra   []string // unexpected directory entries
-	Notes   []Note
-	Marks   []MarkPos
+	Stdout   []byte
+	Stderr   []byte
+	Err      error
+	Panic    any
+	Stack    string
+	Timeout  bool
+	Opens    []Open
+	Stale    []Open // calls, during this run, of an open-file function configured for ANOTHER run of the session
+	Starts   []string
+	Files    map[string]FileSt
+	Extra    []string // unexpected directory entries
+	Notes    []Note
+	Marks    []MarkPos
+	FailMark int  // see FailWriter (-1: no write failed, or no failing writer)
+	Unsynced bool // a command that should have closed its standard input did not report in time: run not judged
+	goneBase int  // lines of the "gone" file when this run began
 }
 
 type MarkPos struct{ I, Opens, Notes int }
@@ -322,13 +430,37 @@ func openClass(flag int) string {
 }
 
 type RunOpts struct {
-	Marks   bool
-	Bufio   bool // wrap the (non failing) output in a bufio.Writer
-	BufSize int
+	Marks bool
+	WKind string // when set (and the writer never fails): Config.Output of this kind instead of the configured one
 }
+
+func bufSize(wkind string) int {
+	switch wkind {
+	case "bufio3":
+		return 3
+	case "bufio16":
+		return 16
+	case "bufio4096":
+		return 4096
+	}
+	return 0
+}
+
+// GoneWait bounds the wait for a command to report that it closed its stdin.
+var GoneWait = 5 * time.Second
 
 // Run executes the history of c on the real interpreter.
 func Run(c *Case, o RunOpts) (*Obs, string) {
+	obs, prog := RunSession([]RunIn{{Cfg: c.Cfg, Acts: c.Acts}}, o)
+	if obs == nil {
+		return nil, prog
+	}
+	return obs[0], prog
+}
+
+// RunSession executes the runs, in order, on ONE interp.Interpreter (interp.New once, one Execute per run, each
+// with the Config of its own run) in one work directory.
+func RunSession(runs []RunIn, o RunOpts) ([]*Obs, string) {
 	id := atomic.AddInt64(&caseSeq, 1)
 	root := filepath.Join(base(), fmt.Sprint(id))
 	dir := filepath.Join(root, "w")
@@ -337,112 +469,213 @@ func Run(c *Case, o RunOpts) (*Obs, string) {
 		panic(err)
 	}
 	defer os.RemoveAll(root)
-	for _, n := range c.Cfg.Pre {
+	for _, n := range runs[0].Cfg.Pre {
 		if err := os.WriteFile(filepath.Join(dir, n), []byte("o\n"), 0o644); err != nil {
 			panic(err)
 		}
 	}
-	prog, args, ok := Render(c.Acts, dir, o.Marks)
+	prog, argss, ok := RenderSession(runs, dir, ctl, o.Marks)
 	if !ok {
 		return nil, ""
 	}
-	obs := &Obs{Files: map[string]FileSt{}}
+	all := make([]*Obs, len(runs))
+	for k := range all {
+		all[k] = &Obs{Files: map[string]FileSt{}, FailMark: -1}
+	}
 	var mu sync.Mutex
+	cur := 0 // index of the run being executed (guarded by mu)
+	var nmarks int64
+	// native functions are bound once per Interpreter (at its first Execute): they look up the current run
 	funcs := map[string]any{
 		"note": func(k string, v float64, s string) {
 			mu.Lock()
-			obs.Notes = append(obs.Notes, Note{K: k, V: int(v), S: hx.FromBytes([]byte(s))})
+			ob := all[cur]
+			ob.Notes = append(ob.Notes, Note{K: k, V: int(v), S: hx.FromBytes([]byte(s))})
 			mu.Unlock()
 		},
 		"mark": func(i int) {
 			mu.Lock()
-			obs.Marks = append(obs.Marks, MarkPos{i, len(obs.Opens), len(obs.Notes)})
+			ob := all[cur]
+			ob.Marks = append(ob.Marks, MarkPos{i, len(ob.Opens), len(ob.Notes)})
+			atomic.AddInt64(&nmarks, 1)
 			mu.Unlock()
 		},
-	}
-	var stdin []byte
-	for _, l := range c.Cfg.Stdin {
-		stdin = append(stdin, l.Bytes()...)
-		stdin = append(stdin, '\n')
-	}
-	out := &LockedBuf{}
-	errb := &LockedBuf{}
-	var fw *FailWriter
-	var bw *bufio.Writer
-	cfg := &interp.Config{
-		Stdin:        bytes.NewReader(stdin),
-		Error:        errb,
-		Args:         args,
-		Vars:         []string{"D", dir},
-		NoExec:       c.Cfg.NE,
-		NoFileWrites: c.Cfg.NW,
-		NoFileReads:  c.Cfg.NR,
-		ShellCommand: []string{"/bin/sh", "-c", shellLine, ctl},
-		Funcs:        funcs,
-	}
-	var sink io.Writer = out
-	if c.Cfg.FailAt >= 0 {
-		fw = &FailWriter{left: c.Cfg.FailAt}
-		sink = fw
-	}
-	if (c.Cfg.FailAt >= 0 && c.Cfg.Buffered) || (c.Cfg.FailAt < 0 && o.Bufio) {
-		sz := o.BufSize
-		if sz == 0 {
-			sz = 4096
-		}
-		bw = bufio.NewWriterSize(sink, sz)
-		cfg.Output = bw
-	} else {
-		cfg.Output = sink
-	}
-	if c.Cfg.Custom {
-		cfg.OpenFile = func(name string, flag int, perm os.FileMode) (*os.File, error) {
-			n := name
-			if filepath.Dir(name) == dir {
-				n = filepath.Base(name)
-			}
+		// waitgone(k): wait until k processes of exit3 (in the current run) have closed their standard input
+		"waitgone": func(k int) {
 			mu.Lock()
-			obs.Opens = append(obs.Opens, Open{n, openClass(flag)})
+			ob := all[cur]
+			gb := ob.goneBase
 			mu.Unlock()
-			return os.OpenFile(name, flag, perm)
+			deadline := time.Now().Add(GoneWait)
+			for {
+				if fi, err := os.Stat(filepath.Join(ctl, "gone")); err == nil && int(fi.Size())/2-gb >= k {
+					return
+				}
+				if time.Now().After(deadline) {
+					mu.Lock()
+					ob.Unsynced = true
+					mu.Unlock()
+					return
+				}
+				time.Sleep(200 * time.Microsecond)
+			}
+		},
+	}
+	var in *interp.Interpreter
+	var perr error
+	var ppanic any
+	func() {
+		defer func() {
+			if r := recover(); r != nil {
+				ppanic = r
+			}
+		}()
+		var p *parser.Program
+		p, perr = parser.ParseProgram([]byte(prog), &parser.ParserConfig{Funcs: funcs})
+		if perr == nil {
+			in, perr = interp.New(p)
 		}
+	}()
+	if ppanic != nil {
+		return nil, prog + fmt.Sprintf("\nPARSE PANIC: %v", ppanic)
 	}
-	res := hx.RunAwk(prog, nil, cfg, &parser.ParserConfig{Funcs: funcs})
-	if res.ParseErr != nil {
-		return nil, prog + "\nPARSE ERROR: " + res.ParseErr.Error()
+	if perr != nil {
+		return nil, prog + "\nPARSE ERROR: " + perr.Error()
 	}
-	obs.Err, obs.Panic, obs.Stack, obs.Timeout = res.Err, res.Panic, res.PanicStk, res.TimedOut
-	if fw != nil {
-		obs.Stdout = fw.got
-	} else {
-		obs.Stdout = out.Bytes()
-	}
-	obs.Stderr = errb.Bytes()
-	if b, err := os.ReadFile(filepath.Join(ctl, "starts.log")); err == nil {
-		for _, l := range strings.Split(strings.TrimRight(string(b), "\n"), "\n") {
-			switch l {
-			case "cat":
-				obs.Starts = append(obs.Starts, "cat")
-			case cat3Text:
-				obs.Starts = append(obs.Starts, "cat3")
-			default:
-				obs.Starts = append(obs.Starts, "?"+l)
+	startsSeen := 0
+	for k := range runs {
+		rc := runs[k].Cfg
+		obs := all[k]
+		mu.Lock()
+		cur = k
+		if fi, err := os.Stat(filepath.Join(ctl, "gone")); err == nil {
+			obs.goneBase = int(fi.Size()) / 2
+		}
+		mu.Unlock()
+		atomic.StoreInt64(&nmarks, 0)
+		var stdin []byte
+		for _, l := range rc.Stdin {
+			stdin = append(stdin, l.Bytes()...)
+			stdin = append(stdin, '\n')
+		}
+		out := &LockedBuf{}
+		errb := &LockedBuf{}
+		var fw *FailWriter
+		vars := []string{"D", dir, "C", ctl}
+		if len(runs) > 1 {
+			vars = append(vars, "RUN", fmt.Sprint(k+1))
+		}
+		cfg := &interp.Config{
+			Stdin:        bytes.NewReader(stdin),
+			Error:        errb,
+			Args:         argss[k],
+			Vars:         vars,
+			NoExec:       rc.NE,
+			NoFileWrites: rc.NW,
+			NoFileReads:  rc.NR,
+			ShellCommand: []string{"/bin/sh", "-c", shellLine, ctl},
+			Funcs:        funcs,
+			Environ:      []string{},
+		}
+		switch rc.OMode {
+		case "csv":
+			cfg.OutputMode = interp.CSVMode
+		case "tsv":
+			cfg.OutputMode = interp.TSVMode
+		}
+		var sink io.Writer = out
+		wkind := rc.WKind
+		if rc.FailAt >= 0 {
+			fw = &FailWriter{left: rc.FailAt, marks: &nmarks, FailMark: -1}
+			sink = fw
+		} else if o.WKind != "" {
+			wkind = o.WKind
+		}
+		if sz := bufSize(wkind); sz > 0 {
+			cfg.Output = bufio.NewWriterSize(sink, sz)
+		} else {
+			cfg.Output = sink
+		}
+		if rc.Custom {
+			me := k
+			cfg.OpenFile = func(name string, flag int, perm os.FileMode) (*os.File, error) {
+				n := name
+				if filepath.Dir(name) == dir {
+					n = filepath.Base(name)
+				}
+				mu.Lock()
+				if cur == me {
+					all[me].Opens = append(all[me].Opens, Open{n, openClass(flag)})
+				} else {
+					all[cur].Stale = append(all[cur].Stale, Open{n, openClass(flag)})
+				}
+				mu.Unlock()
+				return os.OpenFile(name, flag, perm)
 			}
 		}
-	}
-	for _, n := range FileNames {
-		obs.Files[n] = FileSt{C: hx.BS{}}
-	}
-	ents, _ := os.ReadDir(dir)
-	for _, e := range ents {
-		if _, known := obs.Files[e.Name()]; !known {
-			obs.Extra = append(obs.Extra, e.Name())
-			continue
+		// execute under recover(), with a hang guard
+		func() {
+			ctx, cancel := context.WithTimeout(context.Background(), hx.HangTimeout)
+			defer cancel()
+			defer func() {
+				if r := recover(); r != nil {
+					obs.Panic = r
+					buf := make([]byte, 8192)
+					obs.Stack = string(buf[:runtime.Stack(buf, false)])
+				}
+			}()
+			_, obs.Err = in.ExecuteContext(ctx, cfg)
+			if ctx.Err() == context.DeadlineExceeded && obs.Err != nil {
+				obs.Timeout = true
+			}
+		}()
+		if fw != nil {
+			obs.Stdout = fw.got
+			obs.FailMark = fw.FailMark
+		} else {
+			obs.Stdout = out.Bytes()
 		}
-		b, _ := os.ReadFile(filepath.Join(dir, e.Name()))
-		obs.Files[e.Name()] = FileSt{Ex: true, C: hx.FromBytes(b)}
+		obs.Stderr = errb.Bytes()
+		if b, err := os.ReadFile(filepath.Join(ctl, "starts.log")); err == nil {
+			lines := strings.Split(strings.TrimRight(string(b), "\n"), "\n")
+			from := startsSeen
+			if from > len(lines) {
+				from = len(lines)
+			}
+			for _, l := range lines[from:] {
+				switch l {
+				case "cat":
+					obs.Starts = append(obs.Starts, "cat")
+				case cat3Text:
+					obs.Starts = append(obs.Starts, "cat3")
+				case exit3Text(ctl):
+					obs.Starts = append(obs.Starts, "exit3")
+				case showf1Text(dir):
+					obs.Starts = append(obs.Starts, "showf1")
+				default:
+					obs.Starts = append(obs.Starts, "?"+l)
+				}
+			}
+			startsSeen = len(lines)
+		}
+		for _, n := range FileNames {
+			obs.Files[n] = FileSt{C: hx.BS{}}
+		}
+		ents, _ := os.ReadDir(dir)
+		for _, e := range ents {
+			if _, known := obs.Files[e.Name()]; !known {
+				obs.Extra = append(obs.Extra, e.Name())
+				continue
+			}
+			b, _ := os.ReadFile(filepath.Join(dir, e.Name()))
+			obs.Files[e.Name()] = FileSt{Ex: true, C: hx.FromBytes(b)}
+		}
+		if obs.Panic != nil || obs.Timeout {
+			// the Interpreter is in an unknown state: later runs of the session are not made
+			return all[:k+1], prog
+		}
 	}
-	return obs, prog
+	return all, prog
 }
 
 // ---- the stdout predicate (transcription of IOStreams!IsAllowedStdout) ----
